@@ -11,7 +11,7 @@ import fractions
 import z3
 
 from pyvc.prop import Unit, Bounded
-from pyvc.values import strval, SV, STR, OSTR, INT, BOOL, FRAC, DEC, FLOAT, BEAT, TNum, TSeq, TNT, term, is_sym, fresh, fresh_term, coerce
+from pyvc.values import S_at, strval, SV, STR, OSTR, INT, BOOL, FRAC, DEC, FLOAT, BEAT, TNum, TSeq, TNT, term, is_sym, fresh, fresh_term, coerce
 from pyvc import stdmodels as SM, models as M
 from pyvc.execu import HObj, NTVal, PyRaise, LoopSpec, field_slot, local_slot
 from pyvc.models import real_round_half_even, int_floordiv
@@ -218,7 +218,7 @@ _bvF = {}
 def bvF(rows, i):
     """prefix fold of BeatValues.from_str over the comma-separated rows"""
     if "f" not in _bvF:
-        _bvF["f"] = z3.Function("bvF", z3.SeqSort(z3.StringSort()), z3.IntSort(), z3.SeqSort(bv_ty().sort()))
+        _bvF["f"] = z3.Function("bvF", TSeq(STR).sort(), z3.IntSort(), z3.SeqSort(bv_ty().sort()))
     return _bvF["f"](rows, i)
 
 
@@ -228,7 +228,7 @@ def row_cells(row):
 
 def row_ok(row):
     c = row_cells(row)
-    return z3.And(z3.Length(c) == 2, SM.frac_ok(c[0]), SM.dec_ok(c[1]))
+    return z3.And(z3.Length(c) == 2, SM.frac_ok(S_at(c, 0)), SM.dec_ok(S_at(c, 1)))
 
 
 snapf = z3.Function("snap48", z3.RealSort(), z3.RealSort())
@@ -237,7 +237,7 @@ snapf = z3.Function("snap48", z3.RealSort(), z3.RealSort())
 
 def row_value(row):
     c = row_cells(row)
-    return bv_ty().mk(snapf(SM.parse_frac(c[0])), SM.parse_dec(c[1]))
+    return bv_ty().mk(snapf(SM.parse_frac(S_at(c, 0))), SM.parse_dec(S_at(c, 1)))
 
 
 class BeatValuesFromStr(Unit):
@@ -260,11 +260,11 @@ class BeatValuesFromStr(Unit):
 
         def using(ex_, fr, i, vals):
             # definition of the prefix fold, unfolded at i (and the base case)
-            p = SM.parse_frac(row_cells(rows[i])[0])
+            p = SM.parse_frac(S_at(row_cells(S_at(rows, i)), 0))
             return [is_snap(snapf(p), p),
                     bvF(rows, z3.IntVal(0)) == z3.Empty(z3.SeqSort(bv_ty().sort())),
                     z3.Implies(z3.And(i >= 0, i < z3.Length(rows)),
-                               bvF(rows, i + 1) == z3.Concat(bvF(rows, i), z3.Unit(row_value(rows[i]))))]
+                               bvF(rows, i + 1) == z3.Concat(bvF(rows, i), z3.Unit(row_value(S_at(rows, i)))))]
 
         slot = field_slot("data", lambda ex_, fr: fr.locals["instance"], "data", TSeq(bv_ty()))
         ex.loop_specs[("simfile.timing.BeatValues.from_str", 0)] = LoopSpec([slot], inv, using)
